@@ -316,8 +316,30 @@ def splice_item(item, contracts, unit_name, used, canaries):
             raise Undecided("lost-anchor", f"{q}: cannot find body brace")
         if c and c.header:
             blk = _block(f"{unit_name}|{q}|header|0", c.header)
+            f = fninfo.get(q, {})
+            reqs = [cl for cl in clauses_of(c.header) if cl["kind"] == "requires"]
+            can = ""
+            short = q.split("::")[-1]
+            if reqs and c.canary and not f.get("trait_impl") and not f.get("has_mut_ref"):
+                # vacuity guard: the precondition alone must not prove `false` (this proof fn MUST FAIL)
+                sigpos = max(text.rfind("fn " + short + "(", 0, ob), text.rfind("fn " + short + "<", 0, ob))
+                if sigpos >= 0:
+                    params = re.sub(r"\bmut\s+(?=\w+\s*:)", "", f.get("params", ""))
+                    rtxt = "\n".join("        " + TAG_RE.sub("", cl["text"]).rstrip().rstrip(",") + "," for cl in reqs)
+                    can = (f"//@@ {unit_name}|{q}|canary|0\n"
+                           f"proof fn __vx_canary_{short}{f.get('generics','').split(' where ')[0]}({params}) {f.get('where_clause','')}\n"
+                           f"    requires\n{rtxt}\n    ensures false\n{{}}\n//@@ end\n")
+                    canaries.append(q)
+                    ls = text.rfind("\n", 0, sigpos) + 1
+                    text = text[:ls] + can + text[ls:]
+                    ob += len(can)
+                    m_end = m.end() + len(can)
+                else:
+                    m_end = m.end()
+            else:
+                m_end = m.end()
             new = text[:ob] + "\n" + blk + "{\n"
-            text = new + text[m.end():]
+            text = new + text[m_end:]
             pos = len(new)
             used.add(q)
         else:
@@ -374,6 +396,7 @@ def assemble(unit, ex, extra_spec=""):
     for q in contracts:
         if q not in known:
             raise Undecided("lost-anchor", f"contract for `{q}` but no such function was extracted")
+    unit["_canaries"] = canaries
     return "".join(parts), contracts, order
 
 
